@@ -426,6 +426,10 @@ def check_decoded(ctx, case):
         pt = parameter_types.BinaryParameterType("T", encodings.BinaryDataEncoding(fixed_size_in_bits=case["bits"]))
         kind = "bytes"
     pkt = packets.CCSDSPacket(raw_data=data)
+    offset = case.get("offset", 0)
+    pkt.raw_data.pos = offset
+    if offset % 8 or case["bits"] % 8:
+        ctx.cls("decoded: field not byte-aligned")
     try:
         parameters.Parameter("P", pt).parse(pkt)
     except ValueError:
@@ -447,9 +451,21 @@ def check_decoded(ctx, case):
         return ctx.fail(r[0], r[1], case, bucket=f"decoded-{r[0]}:{kind}")
     r = None
     c2 = {"raw_data": case["data"], "items": [], "pos": pkt.raw_data.pos}
-    q = pickle.loads(pickle.dumps(pkt))
-    if packet_view(q) != packet_view(pkt) or q.raw_data.pos != pkt.raw_data.pos or bytes(q.raw_data) != data:
-        return ctx.fail("decoded-packet-pickle", f"{case}: pickling the parsed packet changed it ({c2})", case)
+    if pkt.raw_data.pos != offset + case["bits"]:
+        return ctx.fail("decoded-cursor", f"{case}: cursor {pkt.raw_data.pos} after the decode", case)
+    clones = [("copy", lambda: copy.copy(pkt)), ("deepcopy", lambda: copy.deepcopy(pkt))]
+    for proto in range(0, pickle.HIGHEST_PROTOCOL + 1):
+        clones.append((f"pickle{proto}", (lambda p_: lambda: pickle.loads(pickle.dumps(pkt, protocol=p_)))(proto)))
+    for name, mk in clones:
+        try:
+            q = mk()
+        except Exception as e:
+            return ctx.fail("decoded-packet-copy-raised", f"{case}: {name} of the parsed packet raised {e!r}", case,
+                            bucket="decoded-packet-copy-raised:" + exc_sig(e))
+        if type(q) is not type(pkt) or packet_view(q) != packet_view(pkt) or q.raw_data.pos != pkt.raw_data.pos \
+                or bytes(q.raw_data) != data:
+            return ctx.fail("decoded-packet-pickle", f"{case}: {name} of the parsed packet changed it ({c2})", case,
+                            bucket="decoded-packet-copy:" + name.rstrip("012345"))
     return None
 
 
@@ -515,13 +531,16 @@ def gen_decoded(draw):
     t = draw(st.sampled_from(["int", "float", "bool", "enum", "str", "bin"]))
     if t == "float":
         bits = draw(st.sampled_from([16, 32, 64]))
-    elif t in ("str", "bin"):
+    elif t == "str":
         bits = 8 * draw(st.integers(1, 6))
+    elif t == "bin":
+        bits = draw(st.one_of(st.integers(1, 6).map(lambda x: 8 * x), st.integers(1, 50)))
     else:
         bits = draw(st.integers(1, 64))
-    nbytes = (bits + 7) // 8 + draw(st.integers(0, 2))
+    offset = draw(st.sampled_from([0, 0, 1, 3, 4, 7, 8, 9]))
+    nbytes = (offset + bits + 7) // 8 + draw(st.integers(0, 2))
     data = draw(st.one_of(st.just(bytes(nbytes)), st.binary(min_size=nbytes, max_size=nbytes)))
-    case = {"ptype": t, "bits": bits, "data": data.hex()}
+    case = {"ptype": t, "bits": bits, "data": data.hex(), "offset": offset}
     if t == "int":
         case["sign"] = draw(st.sampled_from(["unsigned", "signed", "twosComplement"]))
     return case
